@@ -188,8 +188,15 @@ func init() {
 		"verifChoice": func(e *Exec, fn *ssa.Function, a []Value) (Value, *GoPanic) {
 			name := e.argStr(a[0])
 			n := e.argInt(a[1])
-			v := e.fresh(name, 8)
-			e.assume(e.tb.Ult(v, e.tb.Const(8, uint64(n))))
+			w := 8
+			if n > 255 {
+				w = 16
+			}
+			if n > 65535 {
+				panic(unsupported("verifChoice with more than 65535 alternatives"))
+			}
+			v := e.fresh(name, w)
+			e.assume(e.tb.Ult(v, e.tb.Const(w, uint64(n))))
 			c := e.concretize(v)
 			return e.tb.Const(64, c), nil
 		},
